@@ -75,6 +75,20 @@ CHECKS = {
          'Spherical overlap areas are external (rectangles with exact areas are used at helper level). Ties are '
          'checked against the property predicate only. Trusted: Coq kernel + vm_compute, python harness.',
          'DESIGN.md section 6 (C15)'),
+ 'C19': ('Coq proof (soundness of an ownership/alias checker incl. helper-call summaries) + translator regenerating '
+         'the ownership IR of the array-level entry points from the current source on every run (checked by '
+         'vm_compute) + byte-level runtime monitor of all entry points',
+         'Machine-checked soundness: `check params prog = true` implies no run of prog\'s statements (any order, any '
+         'multiplicity, any resolution of may-alias, helper calls abstracted by proved summaries) writes a '
+         'caller-owned location. On every run a fail-closed python-ast translator re-derives the IR of 13 '
+         'array-level functions (+ nested helpers) of linearfit/linalg/matchutils/wcsimage from /repo and Coq '
+         'evaluates the checker on it; a monitor snapshots every argument byte-for-byte around calls of ALL entry '
+         'points (incl. fit_wcs, align_wcs, XYXYMatch, set_correction; dtypes float32/64/longdouble; sequences of '
+         '1..3 calls; repeated calls) and searches for the concrete failing input when an obligation breaks.',
+         'PARTIAL: object-level entry points (tables, correctors, deep copies) and repeatability are monitored, not '
+         'proved. Trusted: the translator and its numpy/builtin classification table, the container encoding; a '
+         'caller-supplied callable is assumed not to return retained state.',
+         'DESIGN.md section 6 (C19)'),
  'C17': ('Coq proof (Gauss-Jordan inverse correct for every order n; null vector => Singular) + per-run '
          'correspondence of the exact model with linalg.inv evaluated inside Coq',
          'Machine-checked theorems about an exact-rational model of the Gauss-Jordan algorithm (left and right '
